@@ -20,8 +20,8 @@ from vlib import core
 META = {
     "harness_bins": ["nkeval"],
     "extract": "C08.v",
-    "technique": "Coq proof on a mechanism-shaped model of pending contracts (arrays = (elements, pending_contracts), fields with pending contracts, primitives building closures exactly where operation.rs does): per-primitive pending_tracked lemmas + pipeline composition; a step-indexed logical relation between two runs that differ at one marked component and in how/with which labels the obligations are stored gives, for every pipeline of the 54 supported observers and every fuel, laziness (bottom_insensitive), blames-iff-reached and annotated-run = unannotated-run when not reached; refutation lemmas for two deliberately broken primitives and for the blame label after ArrayConcat. The model is tied to nickel by differential runs of generated `observe (v | T)` programs (extracted model vs nkeval, annotated and unannotated) with an independent reach-table oracle on the implementation",
-    "level_text": "Theorems (coq/Props/C08.v, 30 statements, closed under the global context) quantify over every container literal, position, annotation of the stated families, every pipeline (any length and nesting) of the supported observers, every fuel: (T0) each primitive delivers every component under its obligations and this composes along pipelines; (T0) a violating component is blamed iff the observation marker put in its place in the *unannotated* run comes out, otherwise the annotated run equals the unannotated one; (T0) an unreached component can be replaced by anything, e.g. a failing one, without changing the outcome; (T1) $func wraps every call; the closed index-arithmetic reach table for single observers agrees with the marker semantics. Outcomes are compared up to the polarity of a blame (the faithful model refutes the exact-label statement: C08_concat_label_refuted, reproduced on nickel as a known finding). The model is hand-written from operation.rs / record.rs / merge.rs / internals.ncl / std.ncl; the tie is the correspondence run (same generated programs on the extracted model and on nickel built from /repo) plus the direct oracle (Python reach table; annotated vs unannotated run).",
+    "technique": "Coq proof on a mechanism-shaped model of pending contracts (arrays = (elements, pending_contracts), fields with pending contracts, primitives building closures exactly where operation.rs does): per-primitive pending_tracked lemmas + pipeline composition; a step-indexed logical relation between two runs that differ at one marked component and in how/with which labels the obligations are stored gives, for every pipeline of the 54 supported observers; a pending list guards like the conjunction of its contracts and only the set of (flat) contracts of a stack is observable and every fuel, laziness (bottom_insensitive), blames-iff-reached and annotated-run = unannotated-run when not reached; refutation lemmas for two deliberately broken primitives and for the blame label after ArrayConcat. The model is tied to nickel by differential runs of generated `observe (v | T)` programs (extracted model vs nkeval, annotated and unannotated) with an independent reach-table oracle on the implementation",
+    "level_text": "Theorems (coq/Props/C08.v, 38 statements, closed under the global context) quantify over every container literal, position, annotation of the stated families, every pipeline (any length and nesting) of the supported observers, every fuel: (T0) each primitive delivers every component under its obligations and this composes along pipelines; (T0) a violating component is blamed iff the observation marker put in its place in the *unannotated* run comes out, otherwise the annotated run equals the unannotated one; (T0) an unreached component can be replaced by anything, e.g. a failing one, without changing the outcome; (T1) $func wraps every call; the closed index-arithmetic reach table for single observers agrees with the marker semantics. Outcomes are compared up to the polarity of a blame (the faithful model refutes the exact-label statement: C08_concat_label_refuted, reproduced on nickel as a known finding). The model is hand-written from operation.rs / record.rs / merge.rs / internals.ncl / std.ncl; the tie is the correspondence run (same generated programs on the extracted model and on nickel built from /repo) plus the direct oracle (Python reach table; annotated vs unannotated run).",
     "level_note": "Trusted: Coq kernel; extraction (ExtrOcamlBasic, ExtrOcamlNativeString); the hand-written model's reading of the Rust/Nickel sources; the generator, Nickel printer and Python reach table. Partial: record merge (`&`) is modelled and generated but outside the theorems (a merged field is `(x & y) | contracts`, the merge inspects x before the check); the blames-iff-reached theorems need the annotation to check every component against Number with the listed names = the record's fields (wf_case), a record type / open record contract that reorders the fields changes the order in which `==` visits them (covered by the correspondence only); function containers have their own theorems (func_wraps_call, func_domain_blames_iff_forced). Not modelled: thunk sharing/memoisation, environments, labels other than polarity, contract deduplication (push_dedup modelled as push), optional/undefined fields, the sealing contracts attached by the stdlib's polymorphic static types (C11), sort/generate/partition, array merge, non-integer numbers.",
 }
 
@@ -69,6 +69,8 @@ def nk_ctr(c):
     if c == "dyn":
         return "Dyn"
     k = c[0]
+    if k == "gt":
+        return "(std.contract.from_predicate (fun v => std.is_number v && v > %s))" % nk_num(c[1])
     if k == "arr":
         return "Array (%s)" % nk_ctr(c[1])
     if k == "dictt":
@@ -232,7 +234,17 @@ def nk_container(k):
         return "{" + ", ".join("%s = %s" % (f[0][1], nk_atom(f[1])) for f in k[1:]) + "}"
     if k[0] == "kfun":
         return nk_fun(k[1])
+    if k[0] == "ktree":
+        return nk_tree(k[1])
     raise ValueError(k)
+
+
+def nk_tree(t):
+    if t[0] == "l":
+        return "[" + ", ".join(nk_tree(x) for x in t[1:]) + "]"
+    if t[0] == "r":
+        return "{" + ", ".join("%s = %s" % (f[0][1], nk_tree(f[1])) for f in t[1:]) + "}"
+    return nk_atom(t)
 
 
 def nk_program(k, T, o, entry="ann", alias=False, annotated=True):
@@ -259,6 +271,8 @@ def nk_program(k, T, o, entry="ann", alias=False, annotated=True):
 
 
 def case_program(case, annotated=True):
+    if case.get("kind") == "stack":
+        return stack_program(case, annotated)
     return nk_program(case["k"], case["T"], case["o"], case.get("entry", "ann"), case.get("alias", False), annotated)
 
 
@@ -602,7 +616,17 @@ def py_container(k, pos):
         return {f[0][1]: py_atom(f[1], pos == (i,)) for i, f in enumerate(k[1:])}
     if k[0] == "kfun":
         return lambda arg: py_obs(k[1], arg)
+    if k[0] == "ktree":
+        return py_tree(k[1], pos, ()).get()
     raise ValueError(k)
+
+
+def py_tree(t, pos, here):
+    if t[0] == "l":
+        return th_val([py_tree(x, pos, here + (i,)) for i, x in enumerate(t[1:])])
+    if t[0] == "r":
+        return th_val({f[0][1]: py_tree(f[1], pos, here + (i,)) for i, f in enumerate(t[1:])})
+    return py_atom(t, pos == here)
 
 
 def subst_call_arg(o, a):
@@ -736,6 +760,53 @@ def step_from(rng, ty, shape):
         if ty == "arrn":
             return ("ctr", T_ARR), ty, shape
         return "reverse", ty, shape
+    if ty == "arec":       # array of records {f = atom | array}
+        f = s(shape["names"][0])
+        ity = "rec" if shape["inner"] == "atom" else "recarr"
+        ish = {"names": list(shape["names"]), "ilen": shape.get("ilen", 1)}
+        c = rng.below(100)
+        if c < 40:
+            i = rng.range(0, max(ln - 1, 0))
+            return rng.choice([("atp", i), ("at", i), "first", "last", "pathead"]), ity, ish
+        if c < 60:
+            return ("map", ("access", f)), ("arrn" if shape["inner"] == "atom" else "arr2"), {"len": ln, "inner": shape.get("ilen", 1)}
+        if c < 66:
+            return "length", "num", {}
+        if c < 76:
+            return rng.choice(["reverse", "seq", "pattail"]), ty, (shape if c < 73 else dict(shape, len=max(ln - 1, 0)))
+        if c < 88:
+            return rng.choice(["deepseq", "serde"]), ty, shape
+        if c < 94:
+            return ("eq2", "id", rng.choice(["id", "seq"])), "bool", {}
+        return ("concat2", "id", "id"), ty, dict(shape, len=2 * ln)
+    if ty == "recarr":     # record {f = array of atoms}
+        f = s(shape["names"][0])
+        c = rng.below(100)
+        if c < 55:
+            return (rng.choice(["access", "get", "patfield"]), f), "arrn", {"len": shape.get("ilen", 1)}
+        if c < 70:
+            return "values", "arr2", {"len": 1, "inner": shape.get("ilen", 1)}
+        if c < 78:
+            return "fields", "arrs", {"len": 1}
+        if c < 90:
+            return rng.choice(["deepseq", "serde", "freeze"]), ty, shape
+        return ("eq2", "id", "id"), "bool", {}
+    if ty == "rrec":       # record / dictionary of records
+        keys = shape["keys"]
+        ity = "rec" if shape["inner"] == "atom" else "recarr"
+        ish = {"names": list(shape["names"]), "ilen": shape.get("ilen", 1)}
+        c = rng.below(100)
+        if c < 50:
+            return (rng.choice(["access", "get", "patfield"]), s(rng.choice(keys))), ity, ish
+        if c < 65:
+            return "values", "arec", {"len": len(keys), "names": shape["names"], "inner": shape["inner"], "ilen": shape.get("ilen", 1)}
+        if c < 72:
+            return "fields", "arrs", {"len": len(keys)}
+        if c < 88:
+            return rng.choice(["deepseq", "serde", "freeze", "seq"]), ty, shape
+        if c < 94:
+            return ("eq2", "id", rng.choice(["id", "freeze"])), "bool", {}
+        return ("merge2", "id", "id"), ty, shape
     if ty == "arr2":
         c = rng.below(100)
         if c < 15:
@@ -908,6 +979,8 @@ def strip_ctr(o):
 
 def violates(case):
     """is the special component one that the annotation rejects / that fails?"""
+    if case.get("kind") == "stack":
+        return case["viol"]
     if case["special"] is None:
         return False
     if case["special"] == FAIL:
@@ -920,14 +993,271 @@ def violates(case):
 
 
 # --------------------------------------------------------------------------------------------------
+# stacks: several delayed contracts on the same container, written so that they look alike
+
+BASES = ["dyn", NUM, ("gt", 0), ("gt", 2), "str"]
+
+
+def base_accepts(b, a):
+    """python-known denotation of the base contracts on an atom"""
+    if a == FAIL:
+        return True          # evaluating it fails before any contract answers
+    if b == "dyn":
+        return True
+    if b == NUM:
+        return a[0] == "n"
+    if b == "str":
+        return a[0] == "s"
+    if b[0] == "gt":
+        return a[0] == "n" and a[1] > b[1]
+    raise ValueError(b)
+
+
+def base_witness(b):
+    return s("ok") if b == "str" else n(b[1] + 1 if isinstance(b, tuple) else 1)
+
+
+def stack_ctr(fam, inner, field, base):
+    """model-level contract of one layer of the stack"""
+    elem = ("arr", base) if inner == "arr" else base
+    rc = ("recc", [field], elem, "closed")
+    if fam == "flat":
+        return ("arr", base)
+    if fam in ("arec", "concat"):
+        return ("arr", rc)
+    if fam in ("field", "merge"):
+        return ("recc", ["foo"], rc, "closed")
+    if fam == "dict":
+        return ("dictc", rc)
+    raise ValueError(fam)
+
+
+def stack_prelude(case):
+    """let-bindings introducing the contracts A1, A2, ... of the stack in the chosen style, the
+    names to use for them, and the expressions whose evaluation forces them"""
+    fam, inner, field, style = case["fam"], case["inner"], case["field"], case["style"]
+    bases = case["bases"]
+    elem = "Array Elem" if inner == "arr" else "Elem"
+    lets, names = [], []
+    for i, b in enumerate(bases, 1):
+        bt = nk_ctr(b)
+        if fam == "flat":
+            # the layer is `Array <base>`; the look-alike part is the element contract
+            if style == "inline":
+                names.append("Array (%s)" % bt)
+            elif style == "letblock":
+                lets.append("let A%d = (let Elem = %s in Array Elem) in" % (i, bt)); names.append("A%d" % i)
+            elif style == "factory":
+                if i == 1:
+                    lets.append("let Mk = fun Elem => Array Elem in")
+                lets.append("let A%d = Mk (%s) in" % (i, bt)); names.append("A%d" % i)
+            elif style == "shadow":
+                lets.append("let Elem = %s in let A%d = Array Elem in" % (bt, i)); names.append("A%d" % i)
+            else:
+                lets.append("let E%d = %s in let A%d = Array E%d in" % (i, bt, i, i)); names.append("A%d" % i)
+            continue
+        if style == "inline":
+            names.append("{ %s | %s }" % (field, elem.replace("Elem", "(" + bt + ")")))
+        elif style == "letblock":
+            lets.append("let A%d = (let Elem = %s in { %s | %s }) in" % (i, bt, field, elem)); names.append("A%d" % i)
+        elif style == "factory":
+            if i == 1:
+                lets.append("let Mk = fun Elem => { %s | %s } in" % (field, elem))
+            lets.append("let A%d = Mk (%s) in" % (i, bt)); names.append("A%d" % i)
+        elif style == "shadow":
+            lets.append("let Elem = %s in let A%d = { %s | %s } in" % (bt, i, field, elem)); names.append("A%d" % i)
+        else:
+            lets.append("let E%d = %s in let A%d = { %s | %s } in" % (i, bt, i, field, elem.replace("Elem", "E%d" % i)))
+            names.append("A%d" % i)
+    return lets, names
+
+
+def stack_layer_text(fam, name):
+    if fam == "flat":
+        return name
+    if fam in ("arec", "concat"):
+        return "Array (%s)" % name
+    if fam in ("field", "merge"):
+        return "{ foo | %s }" % name
+    return "{ _ | %s }" % name
+
+
+def stack_program(case, annotated=True):
+    """Nickel text of a stack case.  The bindings and the forcing of the contracts are the same in
+    the annotated and the unannotated program; only the annotations on the container differ."""
+    _ctr[0] = 0
+    _alias[0] = None
+    fam, inner, field = case["fam"], case["inner"], case["field"]
+    lets, names = stack_prelude(case)
+    forced = []
+    if case["style"] != "inline" and case["state"] != "none":
+        for i, (b, nm) in enumerate(zip(case["bases"], names), 1):
+            if case["state"] == "seq":
+                forced.append(nm)
+            else:      # applied to another value before
+                w = nk_atom(base_witness(b))
+                if fam == "flat":
+                    good = "[%s]" % w
+                else:
+                    good = "{ %s = %s }" % (field, "[%s]" % w if inner == "arr" else w)
+                lets.append("let d%d = (%s | %s) in" % (i, good, nm))
+                forced.append("d%d" % i)
+    k = nk_container(case["k"])
+    layers = [stack_layer_text(fam, nm) for nm in names]
+    if not annotated:
+        x = k if fam != "concat" else "(%s @ %s)" % (k, nk_container(case["k2"]))
+    elif fam == "merge":
+        x = "(" + " & ".join(layers + [k]) + ")"
+    elif fam == "concat":
+        x = "((%s | %s) @ (%s | %s))" % (k, layers[0], nk_container(case["k2"]), " | ".join(layers[1:]))
+    else:
+        x = "(" + " | ".join([k] + layers) + ")"
+    body = "let x = %s in %s" % (x, nk_body(case["o"], "x"))
+    for f in reversed(forced):
+        body = "std.seq %s (%s)" % (f, body)
+    return " ".join(lets + [body])
+
+
+def stack_model_line(case, annotated=True):
+    fam = case["fam"]
+    cs = [stack_ctr(fam, case["inner"], case["field"], b) for b in case["bases"]]
+    if fam == "concat":
+        t1, t2 = ([cs[0]], cs[1:]) if annotated else ([], [])
+        return "concat\t%s\t%s\t%s\t%s\t%s" % (sx(t1), sx(case["k"]), sx(t2), sx(case["k2"]), sx(case["o"]))
+    return "stack\t%s\t%s\t%s" % (sx(cs if annotated else []), sx(case["k"]), sx(case["o"]))
+
+
+def whole_container(case):
+    """the container the observer sees (for a concatenation: both operands)"""
+    if case.get("fam") == "concat":
+        return ("ktree", ("l",) + tuple(case["k"][1][1:]) + tuple(case["k2"][1][1:]))
+    return case["k"]
+
+
+def good_atom(rng, bases):
+    """an atom accepted by every base contract of the stack (None if they are contradictory)"""
+    for a in rng.shuffle([n(rng.range(3, 6)), n(4), s("t")]):
+        if all(base_accepts(b, a) for b in bases):
+            return a
+    return None
+
+
+def gen_stack_case(rng):
+    fam = rng.weighted([("arec", 30), ("field", 15), ("merge", 15), ("concat", 15), ("dict", 10), ("flat", 15)])
+    inner = "atom" if fam == "flat" else rng.choice(["atom", "arr"])
+    field = "xs" if inner == "arr" else "x"
+    depth = rng.weighted([(1, 15), (2, 60), (3, 25)])
+    chain = [b for b in BASES if b != "str"]
+    if rng.chance(1, 4):
+        bases = rng.choice([["dyn", "str"], [NUM, "str"], ["str", NUM], ["dyn", "str", "str"]])[:max(depth, 2)]
+    else:
+        bases = [rng.choice(chain) for _ in range(depth)]
+        if depth >= 2 and rng.chance(2, 3):
+            bases = sorted(bases, key=lambda b: chain.index(b))      # weaker first: satisfied first, violated later
+    if fam == "concat" and len(bases) < 2:
+        bases = bases + [rng.choice(chain)]
+    good = good_atom(rng, bases)
+    style = rng.weighted([("letblock", 30), ("factory", 25), ("shadow", 15), ("alias", 10), ("inline", 20)])
+    state = rng.weighted([("applied", 40), ("seq", 35), ("none", 25)])
+    # the special component: violates some layer (biased to a later one), or fails, or nothing special
+    kind = rng.weighted([("viol", 60), ("fail", 15), ("none", 25)])
+    rejected = [a for a in [n(0), n(1), n(3), s("bad")] if not all(base_accepts(b, a) for b in bases)]
+    later = [a for a in rejected if base_accepts(bases[0], a)]
+    if kind == "viol" and not rejected:
+        kind = "none"
+    special = None if kind == "none" else (FAIL if kind == "fail" else rng.choice(later if later and rng.chance(3, 4) else rejected))
+    single = good is None
+    nrec = 1 if single else rng.range(1, 3)
+    ilen = 1 if single else rng.range(1, 3)
+
+    def rec_of(a):
+        # an inner array holds the atom once (first element) followed by copies that are fine wherever a is not
+        if inner == "arr":
+            filler = good if (good is not None and fam != "concat") else None
+            return ("r", (s(field), ("l", a) + tuple(filler for _ in range(ilen - 1) if filler is not None)))
+        return ("r", (s(field), a))
+
+    first = special if special is not None else (good if good is not None else base_witness(bases[0]))
+    if single and special is None:
+        # contradictory stack and nothing special: the only component violates anyway
+        special = first
+    where = rng.below(nrec)
+    items = [rec_of(first if i == where else good) for i in range(nrec)]
+    case = {"kind": "stack", "fam": fam, "inner": inner, "field": field, "bases": bases, "style": style, "state": state,
+            "special": special, "T": stack_ctr(fam, inner, field, bases[0])}
+    inner_path = (0, 0) if inner == "arr" else (0,)
+    if fam == "flat":
+        xs = [first if i == where else good for i in range(nrec)]
+        case["k"], pos, ty, shape = ("karr",) + tuple(xs), (where,), "arrn", {"len": nrec}
+    elif fam == "arec":
+        case["k"], pos = ("ktree", ("l",) + tuple(items)), (where,) + inner_path
+        ty, shape = "arec", {"len": nrec, "names": [field], "inner": inner, "ilen": ilen}
+    elif fam == "concat":
+        # (k | Array A1) @ (k2 | Array A2 | ...): each operand is guarded by its own layers only
+        lb, rb = bases[:1], bases[1:]
+        lgood = good_atom(rng, lb) or base_witness(lb[0])
+        rgood = good_atom(rng, rb)
+        on_right = rng.chance(3, 4) or special is None
+        side = rb if on_right else lb
+        if special is not None and special != FAIL:
+            rej = [a for a in [n(0), n(1), n(3), s("bad")] if not all(base_accepts(b, a) for b in side)]
+            pref = [a for a in rej if base_accepts(bases[0], a)]
+            special = rng.choice(pref if pref and rng.chance(3, 4) else rej) if rej else None
+        case["special"] = special
+        if rgood is None:
+            # the right layers are contradictory: its single component violates anyway
+            special = special if (special is not None and on_right) else base_witness(rb[0])
+            case["special"], on_right = special, True
+            rgood = special
+        nl, nr = rng.range(1, 2), rng.range(1, 2)
+        left = [rec_of(lgood) for _ in range(nl)]
+        right = [rec_of(rgood) for _ in range(nr if rgood != special else 1)]
+        if special is not None:
+            if on_right:
+                where = nl + rng.below(len(right)); right[where - nl] = rec_of(special)
+            else:
+                where = rng.below(nl); left[where] = rec_of(special)
+        case["k"], case["k2"] = ("ktree", ("l",) + tuple(left)), ("ktree", ("l",) + tuple(right))
+        pos = (where,) + inner_path
+        first, bases_here = special, side
+        ty, shape = "arec", {"len": len(left) + len(right), "names": [field], "inner": inner, "ilen": ilen}
+        case["viol"] = special is not None and (special == FAIL or not all(base_accepts(b, special) for b in side))
+        case["pos"] = pos if special is not None else None
+    elif fam in ("field", "merge"):
+        case["k"], pos = ("ktree", ("r", (s("foo"), rec_of(first)))), (0,) + inner_path
+        ty, shape = "rrec", {"keys": ["foo"], "names": [field], "inner": inner, "ilen": ilen}
+    else:
+        keys = rng.shuffle(NAMES)[:nrec]
+        case["k"] = ("ktree", ("r",) + tuple((s(k_), items[i]) for i, k_ in enumerate(keys)))
+        pos = (where,) + inner_path
+        ty, shape = "rrec", {"keys": keys, "names": [field], "inner": inner, "ilen": ilen}
+    if fam != "concat":
+        case["pos"] = pos if special is not None else None
+        case["viol"] = special is not None and (special == FAIL or not all(base_accepts(b, special) for b in bases))
+    obs = []
+    for _ in range(rng.weighted([(1, 10), (2, 25), (3, 35), (4, 30)])):
+        o, ty, shape = step_from(rng, ty, shape)
+        obs.append(o)
+    o = obs[0]
+    for nx in obs[1:]:
+        o = ("comp", o, nx)
+    case["o"] = strip_ctr(o)
+    return case
+
+
+# --------------------------------------------------------------------------------------------------
 # running
 
 def model_line(case, T=None):
+    if case.get("kind") == "stack":
+        return stack_model_line(case, annotated=(T is None))
     mode = "rundom" if case.get("entry", "ann") == "dom" else "run"
     return "%s\t%s\t%s\t%s" % (mode, sx(case["T"] if T is None else T), sx(case["k"]), sx(case["o"]))
 
 
 def reach_line(case):
+    if case.get("kind") == "stack":
+        return "reach\tnone\t%s\t%s\t%s" % (sx(whole_container(case)), sx(case["o"]), ".".join(str(i) for i in case["pos"]))
     return "reach\t%s\t%s\t%s\t%s" % (sx(case["T"]), sx(case["k"]), sx(case["o"]), ".".join(str(i) for i in case["pos"]))
 
 
@@ -1010,8 +1340,12 @@ def run_cases(ck, cases, exe_model, impl_model_exe=None):
             continue
         a, u = canon_impl(a), canon_impl(u)
         viol = violates(c)
-        pr = py_reach(c["k"], c["o"], c["pos"])      # pos None: no marker, only "maybe" / None / False
-        key = sx(c["k"]) + "|" + sx(c["T"]) + "|" + sx(c["o"])
+        pr = py_reach(whole_container(c), c["o"], c["pos"])      # pos None: no marker, only "maybe" / None / False
+        key = case_program(c)
+        if c.get("kind") == "stack":
+            ck.hist("stack_family", c["fam"])
+            ck.hist("stack_presentation", c["style"] + "/" + c["state"])
+            ck.hist("stack_depth", len(c["bases"]))
         ck.case(key=key, nontrivial=bool(viol))
         ck.hist("container", c["k"][0])
         ck.hist("entry", c.get("entry", "ann") + ("+alias" if c.get("alias") else ""))
@@ -1051,6 +1385,8 @@ def run_cases(ck, cases, exe_model, impl_model_exe=None):
                 direct_bad = "component not reached / nothing violates, but observe (v | T) = %s differs from observe v = %s" % (a, u)
         if direct_bad:
             key = "oracle:" + "+".join(sorted(set(flat_obs(c["o"])))) + ":" + c["k"][0]
+            if c.get("kind") == "stack":
+                key = "stack:%s:%s/%s:" % (c["fam"], c["style"], c["state"]) + "+".join(sorted(set(flat_obs(c["o"]))))
             if (c.get("entry") == "dom" and viol and pr is True and c["special"] != FAIL and a == "ERR Blame+"
                     and any(x in ("concatl", "concatr") for x in flat_obs(c["o"]))):
                 # the component is blamed, but with the label of the other operand of `@`
@@ -1109,6 +1445,10 @@ def run(ck):
     total = 1500 if ck.tier == "quick" else 40000
     while len(cases) < total + ncorpus:
         cases.append(gen_case(rng.fork()))
+    # stacks of look-alike contracts on the same container
+    rng2 = core.SplitMix64(ck.seed * 1000003 + 808)
+    for _ in range(500 if ck.tier == "quick" else 12000):
+        cases.append(gen_stack_case(rng2.fork()))
     mod_out, imp_out, raw_out = run_cases(ck, cases, exe_model)
     for c, m, a in list(zip(cases, mod_out, imp_out))[:6]:
         ck.sample({"nickel": case_program(c), "model": m, "impl": canon_impl(a)})
